@@ -20,7 +20,9 @@
    (both unfolded in valid_partition_meaning / valid_partition_spelled below).
    An empty axis is accepted by the specification and by the checker (the property text holds vacuously of it; the
    code cannot return one); a valid partition of minimum size never contains one (min_size_no_empty_axis).
-   The brute force returns ONE partition or None, hence res : option (list (list N)). *)
+   The brute force returns ONE partition or None, hence res : option (list (list N)).
+   History: the correspondence of this property found that the DFS of /repo was not minimum from m = 6 on (it paired
+   alternatives only inside one L-set); repaired by 175f7ec; witness: Example C18_finding_KF_C18_a at the end. *)
 From Coq Require Import List Arith NArith Bool Permutation.
 From PrefVerif Require Import Lib.Val Lib.Contig Lib.SetPartitions Model.SP Model.Partition Proofs.SP Proofs.Partition.
 Import ListNotations.
@@ -191,9 +193,11 @@ Example C18_example_m5_m6 :
   /\ length (set_partitions [1;2;3;4;5]) = 52%nat.
 Proof. repeat split; vm_compute; reflexivity. Qed.
 
-(* OPEN FINDING KF-C18-a (known_findings.json; notes/c18_bruteforce_not_minimum_repro.py): on this profile the optimum is 2
-   ([1;5], [2;3;4;6]) but /repo's k_alternative_partition_brut_force answers None for k = 2 and the valid 3-axis partition
-   [[1;3];[2;5;6];[4]] for k >= 3; both answers violate the second sentence of the property. *)
+(* Witness of the REPAIRED defect KF-C18-a (found by this check, fixed in /repo by 175f7ec; inputs kept in
+   corpus/C18/fixed-175f7ec-bruteforce-not-minimum.json, notes/c18_bruteforce_not_minimum_repro.py): on this profile the
+   optimum is 2 ([1;5], [2;3;4;6]); before the repair k_alternative_partition_brut_force answered None for k = 2 and the
+   valid 3-axis partition [[1;3];[2;5;6];[4]] for k >= 3 - both answers are rejected by brute_force_ok, i.e. they violate
+   the second sentence of the property. *)
 Example C18_finding_KF_C18_a :
   let alts := [1;2;3;4;5;6] in
   let profile := [ [1;2;3;4;5;6] ; [5;1;4;6;3;2] ; [2;5;3;4;1;6] ] in
